@@ -17,6 +17,7 @@ import (
 	"verifsim/schedconn"
 	"verifsim/sim"
 	"verifsim/simsync"
+	"verifsim/simtime"
 )
 
 // C20Op is one client operation: wait for a code, or send a request with a code.
@@ -27,8 +28,11 @@ type C20Op struct {
 
 // C20Plan is one wait/broadcast world.
 type C20Plan struct {
-	Conns  [][]C20Op `json:"conns"`  // one client connection each (full stack: yubiagent client -> ServeAgent)
-	Direct []int     `json:"direct"` // codes waited for by direct Server.Wait callers
+	// EagerTimers: timers of the code under test may fire at any moment after their creation; otherwise they fire
+	// only when nothing else can run (time passes while everybody waits)
+	EagerTimers bool      `json:"eager_timers,omitempty"`
+	Conns       [][]C20Op `json:"conns"`  // one client connection each (full stack: yubiagent client -> ServeAgent)
+	Direct      []int     `json:"direct"` // codes waited for by direct Server.Wait callers
 	// Sibling: codes of requests sent over a connection to ANOTHER agent of the same process (its own shim, its
 	// own underlying agent): they are not requests received by the agent the waiters wait on
 	Sibling []int `json:"sibling,omitempty"`
@@ -104,6 +108,7 @@ func genC20(r *sim.Rng, tier string) any {
 	for _, c := range p.Conns {
 		total += len(c)
 	}
+	p.EagerTimers = r.Bool(0.4)
 	p.Strategy = sched.Strategy{Kind: pick(r, []string{"random", "random", "pct", "rr"}), Seed: r.Uint64(), D: r.Range(1, 3), Horizon: 40 * (total + len(p.Direct))}
 	return p
 }
@@ -176,10 +181,10 @@ type c20state struct {
 }
 
 type waitRec struct {
-	who      string
-	code     int
-	start    int
-	parked   int // 0: never parked on a condition variable
+	who    string
+	code   int
+	start  int
+	parked int // 0: never parked on a condition variable
 	// realPark: the latest moment at which the task that executes this wait was found parked in a channel operation
 	// (an implementation without condition variables). The latest park before a quiescent point is the one inside
 	// the wait itself, i.e. not before the waiter registered; earlier ones may be for other reasons (a frame reader).
@@ -197,6 +202,9 @@ type reqRec struct {
 	send  int
 	reply int
 	own   *waitRec // the wait whose frame this is (code 35), nil for plain requests
+	// taken: when the client's call returned, the server side had read the whole request (the service of the
+	// connection had not ended before the request arrived)
+	taken bool
 }
 
 //go:norace
@@ -272,6 +280,13 @@ func (c *c20state) snapshot() {
 		}
 		w.quiesced = true
 		for _, r := range c.reqs {
+			// a request counts as received when it was answered, or when it is a wait frame whose own wait is parked (the
+			// server announces a request before it serves it); a request that was sent but never answered may not have
+			// been received at all - the service of that connection may have ended before (an upstream failure)
+			received := (r.own == nil && r.taken) || (r.own != nil && (r.own.parked != 0 || r.own.realPark != 0))
+			if !received {
+				continue
+			}
 			if r.code == w.code && r.own != w && r.send > since {
 				c.missed = append(c.missed, fmt.Sprintf("%s waiting for code %d (parked at %d) is still blocked at a quiescent point although %s sent a request with code %d at %d, after it had parked", w.who, w.code, since, r.who, r.code, r.send))
 			}
@@ -297,6 +312,9 @@ func (c *c20state) isFinished() bool { return c.finished }
 //go:norace
 func setf(p *int, v int) { *p = v }
 
+//go:norace
+func setb(p *bool, v bool) { *p = v }
+
 func execC20(t *testing.T, raw json.RawMessage) *sim.Outcome {
 	o := &sim.Outcome{}
 	var p C20Plan
@@ -306,6 +324,7 @@ func execC20(t *testing.T, raw json.RawMessage) *sim.Outcome {
 	}
 	ref := refagent.New()
 	s := sched.New(p.Strategy, 40000)
+	s.LazyTimers = true // (while the shim is being constructed; the plan's policy applies from then on)
 	st := &c20state{curWait: map[int]*waitRec{}, remaining: len(p.Conns) + len(p.Direct)}
 	if len(p.Sibling) > 0 {
 		st.remaining++
@@ -348,6 +367,7 @@ func execC20(t *testing.T, raw json.RawMessage) *sim.Outcome {
 			return
 		}
 		srv = shim.(*shimagent.Server)
+		defer s.SetLazyTimers(!p.EagerTimers) // (from the end of the set-up on)
 		yubi := yubiagent.VerifNewServer(shim, "/nonexistent/yubico-piv-tool", !p.Local)
 		for ci := range p.Conns {
 			ci := ci
@@ -390,6 +410,8 @@ func execC20(t *testing.T, raw json.RawMessage) *sim.Outcome {
 						}
 					} else {
 						rq := &reqRec{who: who, code: op.Code}
+						sent0, _ := cc.Sent()
+						nSent0 := len(sent0)
 						setf(&rq.send, s.Stamp())
 						st.addReq(rq)
 						switch op.Op {
@@ -405,6 +427,8 @@ func execC20(t *testing.T, raw json.RawMessage) *sim.Outcome {
 							cli.Forward(body) // the reply (or the end of the connection) does not matter here
 						}
 						setf(&rq.reply, s.Stamp())
+						sent1, _ := cc.Sent()
+						setb(&rq.taken, len(sent1) > nSent0 && cc.PendingOut() == 0)
 					}
 				}
 				cc.Close()
@@ -502,7 +526,9 @@ func execC20(t *testing.T, raw json.RawMessage) *sim.Outcome {
 		})
 	})
 	spawnedBefore := simsync.Spawned()
+	timersBefore := simtime.Fired()
 	s.Run()
+	timersFired := simtime.Fired() - timersBefore
 	chanProbes(o, s, spawnedBefore)
 	if os.Getenv("VERIF_DEBUG_TASKS") != "" {
 		for _, tk := range s.Tasks() {
@@ -554,6 +580,12 @@ func execC20(t *testing.T, raw json.RawMessage) *sim.Outcome {
 			w.cleanup = st.cleanupBetween(w.code, from, w.ret)
 		}
 		desc := fmt.Sprintf("%s waiting for code %d (started %d, parked %d, returned %d, released by clean-up at %d)", w.who, w.code, w.start, w.parked, w.ret, w.cleanup)
+		if w.err != "" && timersFired > 0 && (strings.Contains(w.err, "closed") || strings.Contains(w.err, "EOF")) {
+			// a timer of the code under test fired in this run (time passed): a connection to the underlying agent that
+			// was given up is a legitimate reason for the service of a client connection to end
+			o.Probe("wait_ended_with_its_connection_after_a_timer_fired")
+			continue
+		}
 		if w.err != "" {
 			o.Fail("C20.wait_error", "wait_error", 0, "%s returned an error: %s", desc, w.err)
 			continue
